@@ -37,6 +37,9 @@ DAll2 == {1, 2, 3, 4, UNK, BCAST, MCAST, FILT}
 DAll3 == {1, 2, 3, 4, 5, UNK, BCAST, MCAST, FILT}
 DSome == {1, 2, 3, BCAST, FILT}
 DTwo  == {1, 2, BCAST}
+DPair == {1, 2}
+DOne  == {2}
+GNone == {}
 DTwoF == {1, 2, BCAST, FILT}
 ShA   == {"a"}
 ShAL  == {"a", "l"}
